@@ -1,13 +1,13 @@
 SPECIFICATION Spec
 CONSTANTS
-  Outs <- O2
-  MaxBlocks = 3
-  MaxHeight = 3
+  Outs <- O1
+  MaxBlocks = 1
+  MaxHeight = 2
   TrimDepth = 2
-  MaxSteps = 14
+  MaxSteps = 8
   WithCrash = TRUE
   CrashInHeadWindow = TRUE
   SpendTrimCandidate = FALSE
 VIEW view
-INVARIANTS TypeOK ReorgEqualsFreshReplay CommitmentEqualsContent Recoverable SpentAtMostOnce
+INVARIANTS Recoverable
 CHECK_DEADLOCK FALSE
